@@ -11,6 +11,7 @@ import (
 	"time"
 
 	kafka "github.com/segmentio/kafka-go"
+	"github.com/segmentio/kafka-go/protocol/fetch"
 	meta "github.com/segmentio/kafka-go/protocol/metadata"
 
 	"kvharness/internal/gen"
@@ -24,6 +25,10 @@ func transportScenario(kind int, r *rand.Rand) (string, string) {
 	rec := &recorder{}
 	var open int32
 	var nconn int32
+	hangBroker := &Broker{FetchMax: 2, Topic: "t", OnFetch: func(q FetchReq) FetchResp {
+		rec.add("fq")
+		return FetchResp{Hang: true}
+	}}
 	tr := &kafka.Transport{
 		DialTimeout: 5 * time.Second,
 		IdleTimeout: 50 * time.Millisecond,
@@ -32,6 +37,14 @@ func transportScenario(kind int, r *rand.Rand) (string, string) {
 				// unreachable: the dial itself blocks until its context ends
 				<-ctx.Done()
 				return nil, ctx.Err()
+			}
+			if kind >= 4 {
+				// a broker that answers ApiVersions and Metadata (the pool becomes ready) and then never answers the Fetch
+				c, _ := hangBroker.Dial()
+				id := int(atomic.AddInt32(&nconn, 1))
+				atomic.AddInt32(&open, 1)
+				rec.add("bo/%d", id)
+				return &countedConn{Conn: c, id: id, sc: &rscenario{rec: rec, open: 0}, onClose: func() { atomic.AddInt32(&open, -1) }}, nil
 			}
 			cli, srv := net.Pipe()
 			id := int(atomic.AddInt32(&nconn, 1))
@@ -54,24 +67,29 @@ func transportScenario(kind int, r *rand.Rand) (string, string) {
 		},
 	}
 	ncalls := 1 + r.Intn(3)
+	var req kafka.Request = &meta.Request{TopicNames: []string{"t"}}
+	if kind >= 4 {
+		req = &fetch.Request{ReplicaID: -1, MaxWaitTime: 100, MinBytes: 1, Topics: []fetch.RequestTopic{{Topic: "t",
+			Partitions: []fetch.RequestPartition{{Partition: 0, FetchOffset: 0, PartitionMaxBytes: 1 << 20}}}}}
+	}
 	type res struct{ c int }
 	done := make([]chan struct{}, ncalls)
 	cancels := make([]context.CancelFunc, ncalls)
 	for i := 0; i < ncalls; i++ {
 		c := i + 1
 		ctx, cancel := context.WithCancel(context.Background())
-		if kind >= 2 {
+		if kind == 2 || kind == 3 {
 			ctx, cancel = context.WithTimeout(context.Background(), time.Duration(5+r.Intn(20))*time.Millisecond)
 		}
 		cancels[i] = cancel
 		done[i] = make(chan struct{})
 		rec.add("rb/%d/rt", c)
-		if kind >= 2 {
+		if kind == 2 || kind == 3 {
 			rec.add("cx/%d", c) // the deadline is armed: the cancellation is scheduled
 		}
 		go func(c int, ctx context.Context, d chan struct{}) {
 			defer close(d)
-			_, err := tr.RoundTrip(ctx, kafka.TCP("fake:9092"), &meta.Request{TopicNames: []string{"t"}})
+			_, err := tr.RoundTrip(ctx, kafka.TCP("fake:9092"), req)
 			cl := "ok"
 			switch {
 			case err == nil:
@@ -85,7 +103,10 @@ func transportScenario(kind int, r *rand.Rand) (string, string) {
 	}
 	time.Sleep(time.Duration(2+r.Intn(10)) * time.Millisecond)
 	for i := 0; i < ncalls; i++ {
-		if kind < 2 {
+		if kind < 2 || kind >= 4 {
+			if kind >= 4 {
+				time.Sleep(30 * time.Millisecond)
+			}
 			rec.add("cx/%d", i+1)
 			cancels[i]()
 		}
@@ -105,6 +126,11 @@ func transportScenario(kind int, r *rand.Rand) (string, string) {
 		cancels[i]()
 	}
 	tr.CloseIdleConnections()
+	if kind >= 4 {
+		// the connections carrying the abandoned requests stay with the Transport until the broker answers or the
+		// request deadline passes: no census (the property speaks of Writer/Reader/ConsumerGroup resources only)
+		return fmt.Sprintf("tclose k=%d %s", kind, rec.String()), fmt.Sprintf("pending=%s", pend)
+	}
 	n := settle(base, 8*time.Second)
 	rec.add("lk/%d", n)
 	oc := int(atomic.LoadInt32(&open))
@@ -113,7 +139,7 @@ func transportScenario(kind int, r *rand.Rand) (string, string) {
 		oc = int(atomic.LoadInt32(&open))
 	}
 	rec.add("oc/%d", oc)
-	return fmt.Sprintf("tclose k=%d %s", kind, rec.String()), fmt.Sprintf("pending=%s leak=%d conns=%d", pend, n, oc)
+	return fmt.Sprintf("tclose k=%d %s", kind, rec.String()), fmt.Sprintf("pending=%s", pend)
 }
 
 func transportPart(seed int64) {
@@ -123,7 +149,7 @@ func transportPart(seed int64) {
 	}
 	n := 0
 	for rep := 0; rep < reps; rep++ {
-		for kind := 0; kind < 4; kind++ {
+		for kind := 0; kind < 6; kind++ {
 			n++
 			if only("tclose", n) {
 				op, impl := transportScenario(kind, scRand(seed, 3, n))
